@@ -973,6 +973,7 @@ package yang
 //@     invariant arr(errs) == 0 || arr(errs) == atentry(arr(errs)) || loopfresh(errs)
 //@     invariant deviatedNode.Parent == nil || arr(deviatedNode.Parent.Errors) == loopentry(arr(deviatedNode.Parent.Errors)) || loopfresh(deviatedNode.Parent.Errors)
 //@     modifies contents(deviatedNode.Parent.Dir), deviatedNode.Parent.Errors, elems(deviatedNode.Parent.Errors), cell(errs), elems(errs)
+//@     modifies deviatedNode.Parent.RPC.Input, deviatedNode.Parent.RPC.Output   -- not-supported on the input or output of an rpc or action
 
 // ---------------------------------------------------------------------------
 // C09: type names bind lexically.
